@@ -228,8 +228,10 @@ def World.mkReader (w : World) (kind name : String) (src : Src) (cfd : Option Bo
         let (w, e) := w.nestedReader (name ++ ".ess") r s
         let w := w.setKind (name ++ ".ess") "exefs"
         let _ := e
+        -- every base wrapper sits on a window of its own (not on `_subfile`)
         let mkBase (w : World) (nm : String) : World :=
-          let (w, b) := w.alloc (name ++ "." ++ nm) (cryptoWrap s false)
+          let (w, win) := w.alloc (name ++ "." ++ nm ++ ".win") (window f)
+          let (w, b) := w.alloc (name ++ "." ++ nm) (cryptoWrap win false)
           w.track r b
         some (["ctr_old", "ctr_new", "firm", "agb", "twl"].foldl mkBase w)
       | _ =>
